@@ -370,6 +370,19 @@ func projectOutbox(m string) string {
 	return strings.Join(out, ",")
 }
 
+// latestMisleadsTrigger: Latest named another run than the newest created one, or reported another run state for it (answers
+// are "wf:fid:run:runstate:status:object:version" or "-"): Trigger's "is the latest run finished?" is then asked of the wrong record.
+func latestMisleadsTrigger(o rsOp, impl, model string) bool {
+	if o.Kind != "latest" {
+		return false
+	}
+	a, b := strings.Split(impl, ":"), strings.Split(model, ":")
+	if len(a) < 4 || len(b) < 4 {
+		return true // one side found a run, the other none
+	}
+	return a[2] != b[2] || a[3] != b[3]
+}
+
 func sigOf(o rsOp) string {
 	switch o.Kind {
 	case "latest":
@@ -441,9 +454,14 @@ func RecordStoreSuiteOpt(mk RecordStoreFactory, opts RSOpts) func(d *leandrv.Dri
 				}
 				res.Eval(1)
 				if impl != model && !d.Null {
-					res.Violate(report.Violation{Property: prop, Oracle: "refines-reference-store", Signature: sigOf(o),
+					v := report.Violation{Property: prop, Oracle: "refines-reference-store", Signature: sigOf(o),
 						Detail: fmt.Sprintf("[corpus %s] after %d operations, %s answered %q, the reference store answers %q", filepath.Base(f), i, o.String(), impl, model),
-						Replay: map[string]any{"ops": body.Replay.Ops[:i+1]}})
+						Replay: map[string]any{"ops": body.Replay.Ops[:i+1]}}
+					res.Violate(v)
+					if latestMisleadsTrigger(o, impl, model) {
+						v.Property = "C09"
+						res.Violate(v)
+					}
 					break
 				}
 			}
@@ -480,6 +498,10 @@ func RecordStoreSuiteOpt(mk RecordStoreFactory, opts RSOpts) func(d *leandrv.Dri
 					res.Violate(v)
 					if o.Kind == "outbox" && prop == "C17" { // the outbox listing is also what the relay (C05) lives on
 						v.Property = "C05"
+						res.Violate(v)
+					}
+					if latestMisleadsTrigger(o, impl, model) { // Trigger's in-progress check (C09) looks at exactly this answer
+						v.Property = "C09"
 						res.Violate(v)
 					}
 					break
